@@ -1057,10 +1057,21 @@ func c07(r *core.Run) {
 			found := false
 			for _, d := range core.Instrs(f, func(in ssa.Instruction) bool { _, k := in.(*ssa.Defer); return k }) {
 				gfn := deferredFn(d)
-				if gfn == nil || len(core.Instrs(gfn, m.isDrainOf(src))) == 0 {
+				// `defer drain(source)`: the deferred call is itself the drain (it runs on every exit once registered)
+				direct := false
+				if dc := d.(*ssa.Defer); dc.Call.StaticCallee() != nil && m.drainFns[dc.Call.StaticCallee()] && len(dc.Call.Args) == 1 && chanMatches(m, dc.Call.Args[0], src) {
+					direct = true
+				}
+				if !direct && (gfn == nil || len(core.Instrs(gfn, m.isDrainOf(src))) == 0) {
 					continue
 				}
 				found = true
+				if direct {
+					if w := core.Precedes(f, core.Is(d), core.Or(core.IsReturn, core.Is(pl.sel))); w != nil {
+						o.Fail(p.InstrPos(w), "the dispatcher can return before registering the defer that drains the source")
+					}
+					continue
+				}
 				if w := core.MustPass(core.Entry(gfn), m.isDrainOf(src), core.IsExit); w != nil {
 					o.Fail(p.InstrPos(w), "%s can end without draining the source", core.FuncName(gfn))
 				}
